@@ -6,7 +6,7 @@ import CimbaModel.HashHeap.Orders
 import CimbaModel.HashHeap.GuardOrder
 import CimbaModel.HashHeap.Hash
 import CimbaModel.HashHeap.Inv
-import CimbaModel.HashHeap.RefineAuto
+import CimbaModel.HashHeap.RefineSpec
 
 namespace CimbaModel.Props.C02
 open CimbaModel CimbaModel.HashHeap CimbaModel.Generated CimbaModel.KPQ
@@ -192,6 +192,13 @@ theorem history_refines_spec [StrictWeak lt] [IgnoresHidx lt] (e : Nat) (h1 : 1 
   obtain ⟨s', rs, hrun, hwf', hspec⟩ := run_refines ops hwf hpre
   rw [habs, hct] at hspec
   exact ⟨s', rs, hrun, hwf', hspec⟩
+
+/-- the specification does not depend on the order in which the abstract queue lists its entries: whatever is
+    possible from `q` is possible, with the same result and a permutation of the same successor, from every
+    permutation of `q` -/
+theorem spec_perm_invariant {q1 q2 : KPQ} {c : Nat} {op : Op} {r : Res} {y : KPQ × Nat}
+    (hp : q1.Perm q2) (hnd : (keys q1).Nodup) (h : SpecStep lt (q1, c) op r y) :
+    ∃ q', SpecStep lt (q2, c) op r (q', y.2) ∧ q'.Perm y.1 := SpecStep.perm_left hp hnd h
 
 /-! #### a payload stays attached to its key: what a lookup by key reports after each updating operation -/
 
